@@ -78,6 +78,9 @@ func vhRequest(sys *System, ctx *Context, op int, loc string) vhResp {
 	case 5:
 		id, err := sys.AddFact(ctx, loc, "f1", `{"a":"c"}`)
 		return vhResp{id, err != nil}
+	case 6:
+		err := sys.DeleteLocation(ctx, loc)
+		return vhResp{nil, err != nil}
 	}
 	vassume(false)
 	return vhResp{}
@@ -156,7 +159,13 @@ func VH_C17_reuse(linear, ttl int) {
 
 // VH_C17_single_load [concurrency mode]: two goroutines make the first request for the
 // same location at the same time: the location is loaded once and both get one instance.
-func VH_C17_single_load(linear, ttl int) {
+func VH_C17_single_load(linear, ttl int) { vhC17SingleLoad(linear, ttl, false) }
+
+// VH_C17_single_load_late: the second request arrives an arbitrary time after the first
+// one started (possibly after the first one's cache entry would have expired).
+func VH_C17_single_load_late(linear, ttl int) { vhC17SingleLoad(linear, ttl, true) }
+
+func vhC17SingleLoad(linear, ttl int, late bool) {
 	vsetNow(vhBase)
 	sys, ctx := vhSystem("A", ttl, false, linear == 1)
 	var wg sync.WaitGroup
@@ -169,6 +178,9 @@ func VH_C17_single_load(linear, ttl int) {
 		wg.Done()
 	}()
 	go func() {
+		if late {
+			vsetNow(vhBase + vsymInt64("delta", 0, 20000000000))
+		}
 		l2, e2 = sys.findLocation(c2, "shared", false)
 		wg.Done()
 	}()
@@ -177,5 +189,72 @@ func VH_C17_single_load(linear, ttl int) {
 	vassert(l1 == l2, "concurrent-first-requests-share-one-instance")
 	sys.releaseLocation(c1, "shared")
 	sys.releaseLocation(c2, "shared")
+	vreach("end")
+}
+
+// VH_C17_overlap: one writer whose request is in flight (its location opened, its write and
+// release still to come) while other requests to the same location run to completion, with
+// arbitrary amounts of time passing in between; a read issued after the writer was
+// acknowledged must see the write ("the cache never serves state that misses an
+// acknowledged write"). The writer's three steps are the ones System.AddFact performs
+// (findLocation, Location.AddFact, releaseLocation); the other requests go through the
+// public System API. nBefore requests run between the writer's open and its write,
+// nAfter between its write and its release.
+func VH_C17_overlap(linear, ttl, nBefore, nAfter int) {
+	vsetNow(vhBase)
+	sys, ctx := vhSystem("A", ttl, false, linear == 1)
+	now := vhBase
+	tick := func(tag string) {
+		now += vsymInt64(tag, 0, 20000000000)
+		vsetNow(now)
+	}
+	wctx := ctx.SubContext()
+	loc, err := sys.findLocation(wctx, "shared", true)
+	vassume(err == nil && loc != nil)
+	for i := 0; i < nBefore; i++ {
+		tick("b" + strconv.Itoa(i))
+		sys.GetFact(ctx.SubContext(), "shared", "k")
+	}
+	tick("w")
+	_, err = loc.AddFact(wctx, "k", Map{"a": "1"})
+	vassume(err == nil)
+	for i := 0; i < nAfter; i++ {
+		tick("a" + strconv.Itoa(i))
+		sys.GetFact(ctx.SubContext(), "shared", "k")
+	}
+	tick("r")
+	vassume(sys.releaseLocation(wctx, "shared") == nil)
+	// the writer has been acknowledged
+	tick("e")
+	_, err = sys.GetFact(ctx.SubContext(), "shared", "k")
+	vassert(err == nil, "acknowledged-write-visible-to-later-request")
+	vreach("end")
+}
+
+// VH_C17_diff_exist: the differential check with existence checking on: a created location,
+// then a history that may delete and re-create it, under two cache TTL settings.
+func VH_C17_diff_exist(linear, ttlA, ttlB, op1, op2, op3 int) {
+	vsetNow(vhBase)
+	sa, ca := vhSystem("A", ttlA, true, linear == 1)
+	sb, cb := vhSystem("B", ttlB, true, linear == 1)
+	_, err := sa.CreateLocation(ca, "loc0")
+	vassume(err == nil)
+	_, err = sb.CreateLocation(cb, "loc0")
+	vassume(err == nil)
+	now := vhBase
+	for step, op := range []int{op1, op2, op3} {
+		if op == 9 {
+			continue
+		}
+		dt := vsymInt64("dt"+strconv.Itoa(step), 0, 20000000000)
+		now += dt
+		vsetNow(now)
+		ra := vhRequest(sa, ca, op, "loc0")
+		rb := vhRequest(sb, cb, op, "loc0")
+		vassert(ra.err == rb.err, "same-error-status-under-any-ttl")
+		if !ra.err && !rb.err {
+			vassert(vdeepEq(ra.s, rb.s), "same-response-under-any-ttl")
+		}
+	}
 	vreach("end")
 }
